@@ -2,6 +2,9 @@
 //! `Index::update`, through the node simulator, with lock-step reference
 //! models and whole-index audits after every block.
 
+pub mod inscriptions;
+pub mod runes;
+pub mod runes_batch;
 pub mod sats;
 
 use {
@@ -92,6 +95,8 @@ pub struct RunSpec<'a> {
   pub cfg_label: String,
   pub alts: Vec<usize>,
   pub k: usize,
+  /// smallest number of deviations explored by this run (lower ones were covered elsewhere)
+  pub k_min: usize,
   pub budget_secs: u64,
 }
 
@@ -107,7 +112,7 @@ pub fn run_histories<S>(
   let mut totals = Totals::default();
   // iterate the bound: K = 0, 1, ..., k
   let mut done_upto: Option<usize> = None;
-  for kk in 0..=spec.k {
+  for kk in spec.k_min..=spec.k {
     let all = enumerate(&spec.alts, kk);
     let vectors: Vec<Choices> = all
       .into_iter()
